@@ -317,7 +317,7 @@ func genC02Session(t *rapid.T) *c02Session {
 			if rapid.IntRange(0, 5).Draw(t, "long_probe") == 0 {
 				// a very long unknown-verb line whose tail looks like a message of ours: it must stay ONE line
 				ln.S = Q(":vsrc!v@v PRIVMSG #vchan :Sq7Gz-9999")
-				ln.Pad = rapid.SampledFrom([]int{4000, 4050, 4090, 4095, 4096, 4097, 4100, 8185, 8192, 9000}).Draw(t, "probe_pad") - rapid.IntRange(0, 40).Draw(t, "probe_pad_off")
+				ln.Pad = rapid.SampledFrom([]int{4000, 4050, 4090, 4095, 4096, 4097, 4100, 8185, 8192, 9000, 65530, 70000}).Draw(t, "probe_pad") - rapid.IntRange(0, 40).Draw(t, "probe_pad_off")
 				ln.PadForm = rapid.SampledFrom([]int{0, 0, 1, 2}).Draw(t, "probe_pad_form")
 			}
 			s.Lines = append(s.Lines, ln)
@@ -325,7 +325,7 @@ func genC02Session(t *rapid.T) *c02Session {
 			seq++
 			ln := c02Line{K: 1, S: Q(fmt.Sprintf("%d", seq)), F: rapid.IntRange(0, len(c02Forms)-1).Draw(t, "form")}
 			if rapid.IntRange(0, 7).Draw(t, "long_numbered") == 0 {
-				ln.Pad = rapid.SampledFrom([]int{3900, 4000, 4040, 4096, 4200, 8192, 9000}).Draw(t, "pad") + rapid.IntRange(0, 60).Draw(t, "pad_off")
+				ln.Pad = rapid.SampledFrom([]int{3900, 4000, 4040, 4096, 4200, 8192, 9000, 65500, 70000}).Draw(t, "pad") + rapid.IntRange(0, 60).Draw(t, "pad_off")
 			}
 			s.Lines = append(s.Lines, ln)
 		}
